@@ -5,6 +5,7 @@ statements hold whatever the core returns — at surfaces, edges, corners and fo
 case).  `μ` is an arbitrary non-zero value of mu_0.
 -/
 import MagpyVerif.Lemmas.KernReal
+import MagpyVerif.Lemmas.KernAlgebra
 import MagpyVerif.Gen.Const
 namespace MagpyVerif.C02
 open MagpyVerif MagpyVerif.Kern
@@ -70,7 +71,57 @@ theorem sphere_j_is_indicator (d : ℝ) (pol x : V3 ℝ) :
   · have h' : Kern.norm x ≤ |d| / 2 := not_lt.mp h
     simp only [h, h', decide_false, if_true]
     rfl
+
+/-- C02 (Triangle): `BHJM_triangle` reports J = M = 0 (a charged sheet has no volume) and
+H = B/μ₀, so B = μ₀H + J and J = μ₀M at every observer -/
+theorem triangle_consistent (v0 v1 v2 pol x : V3 ℝ) :
+    letI := realNum μ
+    bhjmTriangle .B v0 v1 v2 pol x = vs μ (bhjmTriangle .H v0 v1 v2 pol x) + bhjmTriangle .J v0 v1 v2 pol x ∧
+    bhjmTriangle .J v0 v1 v2 pol x = vs μ (bhjmTriangle .M v0 v1 v2 pol x) := by
+  simp only [bhjmTriangle]
+  generalize @triangleB ℝ (realNum μ) v0 v1 v2 pol x = t
+  constructor <;> (apply V3.ext' <;> simp [vs, vd, zero3, n] <;> field_simp)
+
+/-- C02 (Tetrahedron): B = μ₀H + J and J = μ₀M for **every** observer, inside or outside, of
+either handedness of the vertex order.  The J/M branch runs the inside test on the vertices as
+given, the B branch on the chirality-fixed vertices: the two tests agree
+(`tetraInside_chirality`), which is what makes the `+ pol` of the B branch equal to J. -/
+theorem tetra_consistent (v0 v1 v2 v3 pol x : V3 ℝ) :
+    letI := realNum μ
+    bhjmTetra .B v0 v1 v2 v3 pol x = vs μ (bhjmTetra .H v0 v1 v2 v3 pol x) + bhjmTetra .J v0 v1 v2 v3 pol x ∧
+    bhjmTetra .J v0 v1 v2 v3 pol x = vs μ (bhjmTetra .M v0 v1 v2 v3 pol x) := by
+  simp only [tetra_wrapH' μ]
+  exact wrapH_consistent μ hμ _ _ _
+
+/-- C02 (Circle): J = M = 0, and B is μ₀ times H — as `Option`s (B is computed iff H is), hence
+B = μ₀H + J whenever the result is `some` (both cel iterations returned) -/
+theorem circle_consistent (fuel : Nat) (d cur : ℝ) (x : V3 ℝ) :
+    letI := realNum μ
+    bhjmCircle fuel .J d cur x = some zero3 ∧ bhjmCircle fuel .M d cur x = some zero3 ∧
+    bhjmCircle fuel .B d cur x = (bhjmCircle fuel .H d cur x).map (vs μ) ∧
+    ∀ b h, bhjmCircle fuel .B d cur x = some b → bhjmCircle fuel .H d cur x = some h →
+      b = vs μ h + zero3 ∧ (zero3 : V3 ℝ) = vs μ zero3 := by
+  refine ⟨rfl, rfl, rfl, ?_⟩
+  intro b h hb hh
+  rw [bhjmCircle_B_eq, hh] at hb
+  simp only [Option.map_some, Option.some.injEq] at hb
+  subst hb
+  exact ⟨(add_zero3 μ _).symm, (vs_zero3 μ μ).symm⟩
 end
+
+-- non-vacuity (μ = 1): a left-handed tetrahedron with an observer inside — the chirality swap
+-- happens and J = pol ≠ 0 there, so the agreement of the two inside tests is exercised
+example : letI := realNum 1
+    tetraChirality (⟨0, 0, 0⟩ : V3 ℝ) ⟨1, 0, 0⟩ ⟨0, 0, 1⟩ ⟨0, 1, 0⟩ = (⟨0, 0, 0⟩, ⟨1, 0, 0⟩, ⟨0, 1, 0⟩, ⟨0, 0, 1⟩) ∧
+    bhjmTetra .J (⟨0, 0, 0⟩ : V3 ℝ) ⟨1, 0, 0⟩ ⟨0, 0, 1⟩ ⟨0, 1, 0⟩ ⟨0, 0, 1⟩ ⟨1 / 4, 1 / 4, 1 / 4⟩ = ⟨0, 0, 1⟩ := by
+  constructor
+  · simp [tetraChirality, det3, n]
+  · simp [bhjmTetra, tetraInside, det3, n]
+    norm_num
+-- on-axis Circle: the result is `some`, H ≠ 0
+example : letI := realNum 1
+    bhjmCircle 200 .H 2 1 (⟨0, 0, 0⟩ : V3 ℝ) = some ⟨0, 0, 1 / 2⟩ := by
+  simp [bhjmCircle, n]
 
 /-- FULL (`mu0_single`): every place where a value for mu_0 enters the package is the exported
 constant.  False on the current tree: the two magnetization/polarization setters spell out
